@@ -48,7 +48,8 @@ def main():
                                                    capture_output=True, text=True).stdout.strip(),
                        'check_cmd': './check %s --tier quick %s (VERIF_REPO=<worktree with patch applied>)' % (
                            meta['property'], ' '.join(extra))}
-                json.dump(res, open(os.path.join(sd, 'result.json'), 'w'), indent=1)
+                if tests is not None:      # ad-hoc runs (no test suite) do not replace the record
+                    json.dump(res, open(os.path.join(sd, 'result.json'), 'w'), indent=1)
                 summary.append((mid, tests and tests['exit'], r.returncode))
                 print('%-34s tests_exit=%s check_exit=%s %s' % (mid, tests and tests['exit'], r.returncode,
                                                              (lines[:1] or [''])[0][:110]), flush=True)
